@@ -341,6 +341,8 @@ func (pe *PolicyEngine) insertNamespace(ns *corev1.Namespace) error {
 		return err
 	}
 	pe.namespacesMap[nsObj.Name] = nsObj
+	// clear the cache on namespaces changes (namespace labels affect the cached results)
+	pe.cache.clear()
 	return nil
 }
 
@@ -500,6 +502,8 @@ func (pe *PolicyEngine) insertAdminNetworkPolicy(anp *apisv1a.AdminNetworkPolicy
 	pe.sortedAdminNetpols = append(pe.sortedAdminNetpols, nil)
 	copy(pe.sortedAdminNetpols[idx+1:], pe.sortedAdminNetpols[idx:])
 	pe.sortedAdminNetpols[idx] = (*k8s.AdminNetworkPolicy)(anp)
+	// clear the cache on admin netpols changes
+	pe.cache.clear()
 	return nil
 }
 
@@ -517,11 +521,15 @@ func (pe *PolicyEngine) insertBaselineAdminNetworkPolicy(banp *apisv1a.BaselineA
 		return errors.New(netpolerrors.BANPNameAssertion)
 	}
 	pe.baselineAdminNetpol = (*k8s.BaselineAdminNetworkPolicy)(banp)
+	// clear the cache on baseline admin netpol changes
+	pe.cache.clear()
 	return nil
 }
 
 func (pe *PolicyEngine) deleteNamespace(ns *corev1.Namespace) error {
 	delete(pe.namespacesMap, ns.Name)
+	// clear the cache on namespaces changes
+	pe.cache.clear()
 	return nil
 }
 
@@ -588,6 +596,8 @@ func (pe *PolicyEngine) deleteAdminNetworkPolicy(anp *apisv1a.AdminNetworkPolicy
 			break
 		}
 	}
+	// clear the cache on admin netpols changes
+	pe.cache.clear()
 	return nil
 }
 
@@ -595,6 +605,8 @@ func (pe *PolicyEngine) deleteBaselineAdminNetworkPolicy(banp *apisv1a.BaselineA
 	if pe.baselineAdminNetpol != nil && pe.baselineAdminNetpol.Name == banp.Name { // if this is the banp used in pe delete it
 		// @TBD : should keep this if? no other banps are in the resources (illegal)
 		pe.baselineAdminNetpol = nil
+		// clear the cache on baseline admin netpol changes
+		pe.cache.clear()
 	}
 	return nil
 }
